@@ -642,7 +642,7 @@ func Classify(tr *Trace) *Verdict {
 						v.issue("C07", "C07/no-roundtrip", "Authenticate asked for a round trip; server answered %v", envs(s.recv))
 						expectClose = true
 					}
-				case "member+cut":
+				case "member+cut", "unknown+cut":
 					// the client vanished inside the authenticator: nothing can be established any more
 					label += "=peer-vanished"
 					expectClose = true
